@@ -3,11 +3,13 @@
    (Gen/GenC19Theta.v, loops unrolled for d = 2, 3); fast_*d are the generated rectangle masses of C12; the spread maps are
    Gen/GenC19Spread.v.  The equality with the sum of the chain's per-state rates over the default region of a CTMCCredit
    grid is a theorem for d = 1 (C19_rate_equals_theta_credit_1d) and d = 2 (C19_rate_equals_theta_2d: C01's 2-d chain model on
-   a pair of C13's credit axes, rates = the generated rectangle mass of C12 over Q); d = 3 is checked on the implementation
-   (exactly on dyadic step models) by harness/props/C19.py. *)
+   a pair of C13's credit axes, rates = the generated rectangle mass of C12 over Q) and d = 3 (C19_rate_equals_theta_3d: C01's 3-d chain
+   model Model/Chain3d.v on a triple of credit axes, rates = the generated box mass mass_3d of C12 over Q); refined credit grids:
+   C19_refined_gap_1d (refine^n of the credit axis, composing C13's refine_n). *)
 From Coq Require Import List Arith Bool Reals QArith Lra.
 From RV Require Import Base.RB Base.ExtNum Model.Copula Gen.GenC12Mass Model.MassNd Gen.GenC19Theta Gen.GenC19Spread Model.Credit
-  Proofs.C12_Mass Proofs.C12_Family Proofs.C12_Nonneg Proofs.C11_Copula Proofs.C11_Clayton Proofs.C11_Increasing Proofs.C11_Dep3 Proofs.C19_Credit Proofs.C19_Spread Model.Grid Model.Chain Proofs.C01_Chain Proofs.C13_Grid Proofs.C19_Rate Proofs.C19_RateCredit Proofs.C01_Chain2d Proofs.C19_Rate2d Proofs.C19_Theta2d Proofs.C19_StepTails Proofs.C19_Bracket.
+  Proofs.C12_Mass Proofs.C12_Family Proofs.C12_Nonneg Proofs.C11_Copula Proofs.C11_Clayton Proofs.C11_Increasing Proofs.C11_Dep3 Proofs.C19_Credit Proofs.C19_Spread Model.Grid Model.Chain Proofs.C01_Chain Proofs.C13_Grid Proofs.C19_Rate Proofs.C19_RateCredit Proofs.C01_Chain2d Proofs.C19_Rate2d Proofs.C19_Theta2d Proofs.C19_StepTails Proofs.C19_Bracket
+  Model.Chain3d Proofs.C01_Chain3d Proofs.C19_Rate3d Proofs.C19_Theta3d Proofs.C19_StepTails3.
 Import ListNotations.
 Open Scope R_scope.
 
@@ -189,6 +191,68 @@ Theorem C19_rate_equals_theta_2d : forall (U1 : nat -> ext Q -> Q) (UI : idx -> 
   (default_rate2 amid (box_mass2 U1 UI) xs ys 4 a1 a2 == th2 QNum U1 UI (Fin a1) (Fin a2))%Q.
 Proof. exact rate_equals_theta_credit_2d. Qed.
 
+(* the headline clause, d = 3, part 1: the 3-d chain of C01 (Model/Chain3d.v q_entry3: the rate of a state is the box mass of the product of
+   its 1-d cells between arithmetic mid-points) on a triple of level-0 credit axes (C13's credit_axis), for ANY box mass that is additive
+   under a split of any one coordinate on boxes avoiding the origin (C01's hypotheses; no positivity needed): the summed rates of the
+   states with x_i < a1 or y_j < a2 or z_k < a3 equal the mass of the default region inside the truncation box -- as the disjoint sum
+   {x < a1} + {x >= a1, y < a2} + {x >= a1, y >= a2, z < a3} and by inclusion-exclusion over the three half-spaces (7 terms) *)
+Theorem C19_rate_equals_union_mass_3d : forall (mass3 : Q3 -> Q3 -> Q),
+  (forall a b c y1 y2 z1 z2, (a <= b)%Q -> (b <= c)%Q -> avoids3 (a, y1, z1) (c, y2, z2) ->
+     (mass3 (a, y1, z1) (c, y2, z2) == mass3 (a, y1, z1) (b, y2, z2) + mass3 (b, y1, z1) (c, y2, z2))%Q) ->
+  (forall x1 x2 a b c z1 z2, (a <= b)%Q -> (b <= c)%Q -> avoids3 (x1, a, z1) (x2, c, z2) ->
+     (mass3 (x1, a, z1) (x2, c, z2) == mass3 (x1, a, z1) (x2, b, z2) + mass3 (x1, b, z1) (x2, c, z2))%Q) ->
+  (forall x1 x2 y1 y2 a b c, (a <= b)%Q -> (b <= c)%Q -> avoids3 (x1, y1, a) (x2, y2, c) ->
+     (mass3 (x1, y1, a) (x2, y2, c) == mass3 (x1, y1, a) (x2, y2, b) + mass3 (x1, y1, b) (x2, y2, c))%Q) ->
+  (forall a1 a2 a3 b1 b2 b3 a1' a2' a3' b1' b2' b3', (a1 == a1')%Q -> (a2 == a2')%Q -> (a3 == a3')%Q -> (b1 == b1')%Q -> (b2 == b2')%Q -> (b3 == b3')%Q ->
+     (mass3 (a1, a2, a3) (b1, b2, b3) == mass3 (a1', a2', a3') (b1', b2', b3'))%Q) ->
+  forall l1 a1 r1 l2 a2 r2 l3 a3 r3 h sym xs ys zs o1 o2 o3,
+  credit_axis l1 a1 h r1 sym = Some (xs, o1) -> credit_axis l2 a2 h r2 sym = Some (ys, o2) -> credit_axis l3 a3 h r3 sym = Some (zs, o3) ->
+  (default_rate3 amid mass3 xs ys zs 4 a1 a2 a3
+     == mass3 (l1, l2, l3) (a1, r2, r3) + mass3 (a1, l2, l3) (r1, a2, r3) + mass3 (a1, a2, l3) (r1, r2, a3))%Q
+  /\ (default_rate3 amid mass3 xs ys zs 4 a1 a2 a3
+     == mass3 (l1, l2, l3) (a1, r2, r3) + mass3 (l1, l2, l3) (r1, a2, r3) + mass3 (l1, l2, l3) (r1, r2, a3)
+        - mass3 (l1, l2, l3) (a1, a2, r3) - mass3 (l1, l2, l3) (a1, r2, a3) - mass3 (l1, l2, l3) (r1, a2, a3)
+        + mass3 (l1, l2, l3) (a1, a2, a3))%Q.
+Proof. exact rate_equals_union_credit_3d. Qed.
+
+(* d = 3, any admissible triple of axes (refined credit grids, uniform grids): with the first mx / my / mz states of the axes in the default
+   region (all <= origin index) the summed rates are the mass of the region bounded by the CELL boundaries b1, b2, b3 after those states; on
+   refined credit grids b_i < a_i: the exact gap to theta is the mass of the slabs between b_i and a_i *)
+Theorem C19_default_rate_3d_any_axes : forall (mid : Q -> Q -> Q) (mass3 : Q3 -> Q3 -> Q),
+  (forall x y, (x < y)%Q -> (x < mid x y)%Q /\ (mid x y < y)%Q) -> (forall x, ~ (x == 0)%Q -> (mid x x == x)%Q) ->
+  (forall x x' y y', (x == x')%Q -> (y == y')%Q -> (mid x y == mid x' y')%Q) ->
+  (forall a b c y1 y2 z1 z2, (a <= b)%Q -> (b <= c)%Q -> avoids3 (a, y1, z1) (c, y2, z2) ->
+     (mass3 (a, y1, z1) (c, y2, z2) == mass3 (a, y1, z1) (b, y2, z2) + mass3 (b, y1, z1) (c, y2, z2))%Q) ->
+  (forall x1 x2 a b c z1 z2, (a <= b)%Q -> (b <= c)%Q -> avoids3 (x1, a, z1) (x2, c, z2) ->
+     (mass3 (x1, a, z1) (x2, c, z2) == mass3 (x1, a, z1) (x2, b, z2) + mass3 (x1, b, z1) (x2, c, z2))%Q) ->
+  (forall x1 x2 y1 y2 a b c, (a <= b)%Q -> (b <= c)%Q -> avoids3 (x1, y1, a) (x2, y2, c) ->
+     (mass3 (x1, y1, a) (x2, y2, c) == mass3 (x1, y1, a) (x2, y2, b) + mass3 (x1, y1, b) (x2, y2, c))%Q) ->
+  (forall a1 a2 a3 b1 b2 b3 a1' a2' a3' b1' b2' b3', (a1 == a1')%Q -> (a2 == a2')%Q -> (a3 == a3')%Q -> (b1 == b1')%Q -> (b2 == b2')%Q -> (b3 == b3')%Q ->
+     (mass3 (a1, a2, a3) (b1, b2, b3) == mass3 (a1', a2', a3') (b1', b2', b3'))%Q) ->
+  forall xs ys zs o hx hy hz mx my mz b1 b2 b3, admissible xs o hx -> admissible ys o hy -> admissible zs o hz ->
+  (1 <= mx <= o)%nat -> (1 <= my <= o)%nat -> (1 <= mz <= o)%nat ->
+  (cell_hi mid xs (mx - 1) == b1)%Q -> (cell_hi mid ys (my - 1) == b2)%Q -> (cell_hi mid zs (mz - 1) == b3)%Q ->
+  let l1 := headq xs in let r1 := lastq xs in let l2 := headq ys in let r2 := lastq ys in let l3 := headq zs in let r3 := lastq zs in
+  (default_rate3_idx mid mass3 xs ys zs o mx my mz
+     == mass3 (l1, l2, l3) (b1, r2, r3) + mass3 (b1, l2, l3) (r1, b2, r3) + mass3 (b1, b2, l3) (r1, r2, b3))%Q
+  /\ (default_rate3_idx mid mass3 xs ys zs o mx my mz
+     == mass3 (l1, l2, l3) (b1, r2, r3) + mass3 (l1, l2, l3) (r1, b2, r3) + mass3 (l1, l2, l3) (r1, r2, b3)
+        - mass3 (l1, l2, l3) (b1, b2, r3) - mass3 (l1, l2, l3) (b1, r2, b3) - mass3 (l1, l2, l3) (r1, b2, b3)
+        + mass3 (l1, l2, l3) (b1, b2, b3))%Q.
+Proof. intros mid mass3 H1 H2 H3 H4 H5 H6 H7 xs ys zs o hx hy hz mx my mz b1 b2 b3. apply default_rate3_idx_boxes; assumption. Qed.
+
+(* the headline clause, d = 3, part 2 (composition): the rates are the GENERATED box mass of the chain's model (box_mass3 =
+   LevyCopulaModel.mass fast path mass_3d of Gen/GenC12Mass.v on finite boxes, over Q -- its additivity per coordinate on boxes avoiding the
+   origin is proved from the generated term, no hypothesis), theta is the GENERATED CFLevyCopulaModel._theta unrolled for d = 3 (th3) of the
+   same tail integrals; these are the tail integrals of a measure truncated to the grid box (truncated3: marginal tails vanish at the
+   truncation bounds, the pair and triple tail integrals vanish when an argument is a bound of its axis) and are functions of the rational
+   number (tails_proper3).  Then the summed rates over the default region EQUAL theta. *)
+Theorem C19_rate_equals_theta_3d : forall (U1 : nat -> ext Q -> Q) (UI : idx -> list (ext Q) -> Q) l1 a1 r1 l2 a2 r2 l3 a3 r3 h sym xs ys zs o1 o2 o3,
+  credit_axis l1 a1 h r1 sym = Some (xs, o1) -> credit_axis l2 a2 h r2 sym = Some (ys, o2) -> credit_axis l3 a3 h r3 sym = Some (zs, o3) ->
+  tails_proper3 U1 UI -> truncated3 U1 UI l1 r1 l2 r2 l3 r3 ->
+  (default_rate3 amid (box_mass3 U1 UI) xs ys zs 4 a1 a2 a3 == th3 QNum U1 UI (Fin a1) (Fin a2) (Fin a3))%Q.
+Proof. exact rate_equals_theta_credit_3d. Qed.
+
 (* the implied-threshold objective composed with C19_monotone (d = 1): with the generated theta of real tails of a non-negative
    measure, cds_spread(a) - target is non-decreasing in the (negative) threshold *)
 Theorem C19_threshold_objective_monotone : forall (U1 : nat -> ext R -> R) (target rec : R), rtails_ok U1 -> rec <= 1 ->
@@ -251,6 +315,24 @@ Proof.
   vm_compute. repeat split.
 Qed.
 
+(* non-vacuity of the d = 3 headline: three step margins on [-2,2], [-1,1], [-3/2,3/2] with the completely dependent copula satisfy BOTH
+   hypotheses (tails_proper3 / truncated3 are theorems for every triple of step margins with either copula, given the six vanishing
+   marginal tails), the three symmetric credit axes exist (9 points each: 729 states, 386 of them in the default region), and the common
+   value of the summed rates and of the generated theta is 3/2; the Lebesgue box volume satisfies the hypotheses of the abstract theorem *)
+Example C19_rate_3d_nonvacuous :
+  let U1 := step_U1 ex3_margins in let UI := step_UI Dep ex3_margins in
+  (tails_proper3 U1 UI /\ truncated3 U1 UI (-2) 2 (-1) 1 (-(3#2)) (3#2)) /\
+  (exists xs ys zs, credit_axis (-2) (-1) (1#4) 2 true = Some (xs, 4%nat) /\ credit_axis (-1) (-(1#2)) (1#4) 1 true = Some (ys, 4%nat) /\
+     credit_axis (-(3#2)) (-(3#4)) (1#4) (3#2) true = Some (zs, 4%nat) /\ length xs = 9%nat /\ length ys = 9%nat /\ length zs = 9%nat /\
+     Qeq_bool (default_rate3 amid (box_mass3 U1 UI) xs ys zs 4 (-1) (-(1#2)) (-(3#4))) (3#2) = true /\
+     Qeq_bool (th3 QNum U1 UI (Fin (-1)) (Fin (-(1#2))) (Fin (-(3#4)))) (3#2) = true /\
+     Qeq_bool (default_rate3 amid (fun a b => (p1 b - p1 a) * (p2 b - p2 a) * (p3 b - p3 a)) xs ys zs 4 (-1) (-(1#2)) (-(3#4)))
+              (1 * 2 * 3 + 3 * (1#2) * 3 + 3 * (3#2) * (3#4)) = true).
+Proof.
+  cbv zeta. split; [exact ex3_hypotheses|]. eexists. eexists. eexists. split; [vm_compute; reflexivity|]. split; [vm_compute; reflexivity|].
+  split; [vm_compute; reflexivity|]. vm_compute. repeat split.
+Qed.
+
 Print Assumptions C19_theta_is_union_mass.
 Print Assumptions C19_monotone.
 Print Assumptions C19_monotone_modelled.
@@ -261,8 +343,12 @@ Print Assumptions C19_rate_equals_theta_credit_1d.
 Print Assumptions C19_rate_equals_union_mass_2d.
 Print Assumptions C19_default_rate_2d_any_axes.
 Print Assumptions C19_rate_equals_theta_2d.
+Print Assumptions C19_rate_equals_union_mass_3d.
+Print Assumptions C19_default_rate_3d_any_axes.
+Print Assumptions C19_rate_equals_theta_3d.
 Print Assumptions C19_threshold_objective_monotone.
 Print Assumptions C19_threshold_bracket.
 Print Assumptions C19_threshold_nonvacuous.
 Print Assumptions C19_nonvacuous.
 Print Assumptions C19_rate_2d_nonvacuous.
+Print Assumptions C19_rate_3d_nonvacuous.
